@@ -17,6 +17,10 @@ Three bounded-exhaustive layers on the real connection (both roles).
  (c) CONTINUATION counts 63..66 and header lists of decoded size limit-1,
      limit, limit+1 for acknowledged MAX_HEADER_LIST_SIZE in {65536, 100,
      65537}.
+ (d) After each of six connection errors (oversized frame, bad lengths,
+     CONTINUATION flood, foreign frame inside a header block) 400 further
+     chunks of four kinds keep arriving: the buffered input must not keep
+     growing (measured after 200 and after 400 chunks).
 
 Oracle: (a) sizes unchanged; (b) the closed-stream memory never exceeds its
 cap, and for every body that keeps the connection alive and whose number of
@@ -315,6 +319,42 @@ def job_static(job):
                 frames=cnt + 1)
         if o.kind == "raise" and len(conn.incoming_buffer._headers_buffer) > 65:
             bad("continuation-buffer-kept", "buffered %d frames" % len(conn.incoming_buffer._headers_buffer), {"layer": "static", "client": client})
+    # (d) after a connection error: whatever the peer goes on sending (and a careless application goes on feeding) is not kept
+    for state in ("open", "handshaken"):
+        for errname, errbytes in (
+                ("oversized-frame", wire.raw(wire.DATA, 0, 1, b"x" * 20000).serialize()),
+                ("bad-ping-length", wire.raw(wire.PING, 0, 0, b"short").serialize()),
+                ("zero-window-update", wire.raw(wire.WINDOW_UPDATE, 0, 0, b"\0\0\0\0").serialize()),
+                ("settings-ack-with-payload", wire.raw(wire.SETTINGS, 1, 0, b"\0\3\0\0\0\1").serialize()),
+                ("continuation-flood", wire.ser([wire.headers(1 if client is False else 1, sb(base), eh=False)] + [wire.continuation(1, b"", eh=False) for _ in range(70)])),
+                ("foreign-frame-in-block", wire.ser([wire.headers(1, sb(base), eh=False), wire.ping(b"12345678")]))):
+            for follow_name, chunk in (("pings", wire.ping(b"abcdefgh").serialize() * 50),
+                                       ("continuations", wire.continuation(1, b"z" * 100, eh=False).serialize() * 10),
+                                       ("zeros", b"\0" * 1000),
+                                       ("small-frames-cut", (wire.ping(b"abcdefgh").serialize() * 50)[:-3])):
+                conn = pickle.loads(corpus.state_blob(client, state))
+                try:
+                    conn.receive_data(errbytes)
+                    outcomes["after-error:%s:not-an-error" % errname] = 1
+                    continue
+                except Exception:  # noqa: BLE001 - the error itself is judged by C17 / C18
+                    pass
+                sizes = []
+                for i in range(400):
+                    try:
+                        conn.receive_data(chunk)
+                    except Exception:  # noqa: BLE001
+                        pass
+                    conn.data_to_send()
+                    n += 1
+                    if i in (199, 399):
+                        sizes.append(sum(measure(conn)[2:5]) + sum(len(getattr(f, "data", b"")) for f in conn.incoming_buffer._headers_buffer))
+                outcomes["after-error:%s:%s" % (errname, follow_name)] = 1
+                if sizes[1] > sizes[0] and sizes[1] > 2 * len(chunk) + 20009:
+                    bad("input-retained-after-connection-error",
+                        "after the connection error '%s' in state %s, input that keeps arriving (%s) is retained: %d bytes buffered after 200 chunks, "
+                        "%d after 400" % (errname, state, follow_name, sizes[0], sizes[1]), {"layer": "after-error", "client": client},
+                        error=errname)
     # (c) header list size limits
     for limit, later in ((65536, None), (100, None), (65537, None), (200, 60000), (60000, 200), (300, "with-table-size"),
                          (65536, "raised-and-restored")):
@@ -375,7 +415,7 @@ def dispatch(job):
 
 def replay(rec):
     case = rec.get("case", {})
-    if case.get("layer") == "static":
+    if case.get("layer") in ("static", "after-error"):
         return job_static({"client": case["client"]})["violations"]
     return job_bodies({"client": case["client"], "bodies": [tuple(case["body"])], "N": case["N"], "small": case["small"]})["violations"]
 
